@@ -41,11 +41,15 @@ type emRun struct {
 	modes   []string
 }
 
+// emSub is the subscriber of the run in progress (first argument of every emitter hook): goroutines of an earlier
+// run that are still winding down must not be mistaken for this run's.
+var emSub interface{}
+
 func waitPark(point string, d time.Duration) *sim.Parked {
 	var got *sim.Parked
 	sim.TheHub.WaitFor(d, func() bool {
 		for _, p := range sim.TheHub.ParkedLocked() {
-			if p.Point == point {
+			if p.Point == point && (emSub == nil || (len(p.Args) > 0 && p.Args[0] == emSub)) {
 				got = p
 				return true
 			}
@@ -111,6 +115,8 @@ func (r *emRun) forced(b Behaviour) error {
 	h := sim.TheHub
 	r.start()
 	defer r.stop()
+	emSub = nil
+	h.ReleaseAll()
 	h.ParkAt("emitter.recv", nil)
 	h.ParkAt("emitter.send", nil)
 	h.ParkAt("emitter.sent", nil)
@@ -123,8 +129,12 @@ func (r *emRun) forced(b Behaviour) error {
 			r.emitted++
 			r.ee.Emit(ctx, r.emitted)
 			if r.emitted-r.placed == 1 {
-				if waitPark("emitter.recv", gateWait) == nil {
+				p := waitPark("emitter.recv", gateWait)
+				if p == nil {
 					return fmt.Errorf("goroutine A did not reach emitter.recv")
+				}
+				if emSub == nil && len(p.Args) > 1 && p.Args[1] == interface{}(r.emitted) {
+					emSub = p.Args[0]
 				}
 			}
 		case "Place":
@@ -134,7 +144,7 @@ func (r *emRun) forced(b Behaviour) error {
 			}
 			before := h.Count("emitter.place", nil)
 			h.Release(p)
-			if !h.WaitFor(gateWait, func() bool { return h.CountLocked("emitter.place", nil) == before+1 }) {
+			if !h.WaitFor(gateWait, func() bool { return h.CountLocked("emitter.place", nil) >= before+1 }) {
 				return fmt.Errorf("goroutine A did not place the event")
 			}
 			r.placed++
@@ -174,7 +184,7 @@ func (r *emRun) forced(b Behaviour) error {
 			}
 			before := h.Count("emitter.relocked", nil)
 			h.Release(p)
-			if !h.WaitFor(gateWait, func() bool { return h.CountLocked("emitter.relocked", nil) == before+1 }) {
+			if !h.WaitFor(gateWait, func() bool { return h.CountLocked("emitter.relocked", nil) >= before+1 }) {
 				return fmt.Errorf("goroutine B did not take the lock again")
 			}
 		case "Read":
